@@ -196,6 +196,7 @@ inductive Ev where
   | runRet (err : Bool)
   | stopRun
   | quiet (pending : List Nat)  -- after settling, exactly these consumer calls have not returned
+  | nop                          -- an observation the model does not constrain
   deriving Repr
 
 /-- The pc at which the hook sits (after `RLock`). -/
@@ -262,6 +263,7 @@ def simEvent (v : Variant) (m : Sim) : Ev → Sim
   | .ret i pc => { m with states := m.states.filter fun s => s.cons[i]? == some pc }
   | .runRet err => { m with states := m.states.filter fun s => if err then s.run = .retErr else s.run = .stopped }
   | .stopRun => { m with states := m.states.filterMap fun s => match step v s .stop with | some t => some t | none => if s.run = .retErr then some s else none }
+  | .nop => m
   | .quiet p =>
     -- settled: no internal step left, the pending calls are exactly `p`, and a request the model has
     -- outstanding at the issuer has been observed there
